@@ -178,8 +178,8 @@ Proof.
   split; [|split; [|split]].
   - intros st1 H; rewrite H; reflexivity.
   - intros st1 H; rewrite H; reflexivity.
-  - intros v st1 r H O; rewrite H; simpl; rewrite O; reflexivity.
-  - intros v st1 H O; rewrite H; simpl; rewrite O; reflexivity.
+  - intros v st1 r H O; rewrite H; cbn [bind]; rewrite O; reflexivity.
+  - intros v st1 H O; rewrite H; cbn [bind]; rewrite O; reflexivity.
 Qed.
 
 (* ---------------------------------------------------------------------------------- let in parallel, let* in sequence *)
